@@ -466,6 +466,8 @@ func (x *dbx) Apply(op string, check bool) (fail *vx.Fail) {
 		if err := x.db.CleanTombstones(); err != nil {
 			return vx.Failf("op-error/clean", "CleanTombstones: %v", err)
 		}
+	case "mmap":
+		x.db.ForceHeadMMap()
 	case "reopen":
 		if err := x.db.Close(); err != nil {
 			x.db = nil
@@ -808,10 +810,34 @@ func (x *dbx) Ops() []string {
 	if W > 0 {
 		ops = append(ops, "cmpooo")
 	}
+	if lvl != "small" {
+		ops = append(ops, "mmap")
+	}
 	if x.extraOps != nil {
 		ops = append(ops, x.extraOps(x)...)
 	}
 	return ops
+}
+
+// dbxStarts: non-initial states from which BFS is (also) started — deeper histories that set up
+// the structures single-digit-depth search from the empty database cannot reach: a completed chunk
+// ending exactly on a block boundary followed by a type change, several m-mapped chunks, blocks of
+// several levels, out-of-order chunks of different ages, tombstones in head and blocks.
+func dbxStarts(w int64) [][]string {
+	st := [][]string{
+		{"app/s1/F+1/f", "app/s1/B+0/f", "app/s1/F+1/h", "mmap", "cmphead", "app/s1/F+1/f"},
+		{"app/s1/F+1/f", "app/s1/F+1/f", "app/s1/F+1/f", "app/s1/F+1/f", "app/s1/F+1/f", "mmap", "app/s1/F+1/f", "app/s2/F+1/h"},
+		{"app/s1/F+1/f", "app/s1/F+160/f", "compact", "app/s1/F+160/f", "compact", "app/s1/F+160/f", "compact", "app/s1/F+160/f", "compact"},
+		{"app/s1/F+1/f", "app/s2/F+1/f", "app/s1/F+160/f", "compact", "del/all/F-1/F+1", "app/s1/F+1/f", "del/s1/B-R/B-1"},
+		{"app/s1/F+1/h", "app/s1/F+1/h", "app/s1/F+1/fh", "app/s1/F+1/st", "app/s1/F+1/f", "mmap"},
+	}
+	if w > 0 {
+		st = append(st,
+			[]string{"app/s1/F+1/f", "app/s1/F-Wh/f", "app/s1/F-Wh/f", "cmpooo", "app/s1/F-Wh/f", "app/s1/F+160/f", "app/s1/F-Wh/h"},
+			[]string{"app/s1/F+1/f", "app/s1/F+1/f", "app/s1/F-1/f", "app/s1/F-1/f", "app/s1/F-1/f", "app/s1/F-1/f", "app/s1/F-1/f", "mmap", "app/s2/F-Wh/f"},
+		)
+	}
+	return st
 }
 
 // ---- canonical state key ------------------------------------------------------------------
